@@ -138,18 +138,22 @@ def e2e_run(ctx, pdb, ff, extra):
 
     d = ctx.scratch_dir()
     out = d / "e.pqr"
-    args = pmain.build_main_parser().parse_args([f"--ff={ff}", *extra, str(core.REPO / "tests" / "data" / pdb), str(out)])
+    src = pdb if str(pdb).startswith("/") else core.REPO / "tests" / "data" / pdb
+    args = pmain.build_main_parser().parse_args([f"--ff={ff}", *extra, str(src), str(out)])
     cap = {}
     orig = pbio.Biomolecule.apply_force_field
 
     def wrapped(self, ff_):
         hits, misses = orig(self, ff_)
         recs = []
+        groups = []
         for residue in self.residues:
             lname = residue.ffname if isinstance(residue, (aa.Amino, aa.WAT, na.Nucleic)) else residue.name
+            groups.append((lname, [id(a) for a in residue.atoms]))
             for atom in residue.atoms:
                 recs.append((id(atom), lname, atom.name, str(residue)))
         cap["recs"] = recs
+        cap["groups"] = groups
         cap["hits"] = [(id(a), a.ffcharge, a.radius) for a in hits]
         cap["misses"] = [id(a) for a in misses]
         return hits, misses
@@ -172,6 +176,53 @@ def e2e_run(ctx, pdb, ff, extra):
     cap["err"] = err
     cap["missed_final"] = [id(a) for a in (missed or [])]
     return cap
+
+
+def state_variant_runs(ctx, thorough):
+    """Builder tripeptides covering the 20 residues + named variants at N / internal / C positions
+    (c02.triple_cases) through the real pipeline; atoms are keyed by the state name the residue SHOULD
+    have (c02.expected_states: the harness' own naming table), so a residue that is looked up under
+    another state's name shows up as wrong parameters."""
+    from harness.props import c02 as C2
+
+    cases = C2.triple_cases(ctx.rng, FFS, ctx.rng.randrange(0, 7))
+    if not thorough:
+        cases = [c for k, c in enumerate(cases) if k % 5 == ctx.seed % 5]
+    out = []
+    d = ctx.scratch_dir()
+    for k, case in enumerate(cases):
+        try:
+            text, expect = C2.pdb_text(case["spec"], ter=case.get("ter", True))
+        except Exception as e:  # builder trouble: count, do not judge
+            ctx.count(f"state-run:skipped-{type(e).__name__}")
+            continue
+        f = d / f"state_{k}.pdb"
+        f.write_text(text)
+        cap = e2e_run(ctx, str(f), case["ff"], case.get("opts", []))
+        f.unlink()
+        label = "builder:" + "-".join(case["spec"][0]["segments"][0])
+        ctx.count(f"state-run:{case['ff']}")
+        if "groups" not in cap or len(cap["groups"]) != len(expect):
+            ctx.count("state-run:no-assignment-or-residue-count")
+            continue
+        exp_groups, relabel = [], {}
+        for e, (obs, ids) in zip(expect, cap["groups"]):
+            es = C2.expected_states(e, case.get("opts", []), case["ff"])
+            if es is None:
+                continue
+            names_, _ = es
+            lname = obs if obs in names_ else names_[0]
+            if obs not in names_:
+                ctx.count("state-run:observed-name-differs-from-expected")
+            exp_groups.append((lname, ids))
+            for i in ids:
+                relabel[i] = lname
+        cap["recs"] = [(i, relabel[i], a, r) for i, _, a, r in cap["recs"] if i in relabel]
+        cap["exp_groups"] = exp_groups
+        cap["state_run"] = True
+        cap["case"] = case
+        out.append((label, case["ff"], case.get("opts", []), cap))
+    return out
 
 
 def fmt4(scaled):
@@ -246,6 +297,15 @@ def run(ctx):
             if "recs" in cap:
                 for _, lname, aname, _ in cap["recs"]:
                     pairs_by_ff.setdefault(ff, set()).add((lname, aname))
+    # (iii-b) every residue type / named protonation variant / chain position: the parameters must be those of
+    # the state the residue is IN (name, position, terminus options), whatever name the code looked up.  The expected
+    # state name comes from the harness' own table (c02.expected_states), not from residue.ffname.
+    state_runs = state_variant_runs(ctx, thorough=(ctx.thorough or not ok or corr_broken))
+    for label, ff, extra, cap in state_runs:
+        runs.append((label, ff, extra, cap))
+        if "recs" in cap:
+            for _, lname, aname, _ in cap["recs"]:
+                pairs_by_ff.setdefault(ff, set()).add((lname, aname))
     # model lookups, one Coq evaluation per force field
     expected = {}
     for ff, pairs in pairs_by_ff.items():
@@ -269,17 +329,33 @@ def run(ctx):
                 q, rad, _, _ = v.split(" ")
                 expected[(ff, r, a)] = (int(q), int(rad))
     for pdb, ff, extra, cap in runs:
+        pdbref = {"label": pdb, "builder_spec": cap["case"]["spec"], "ter": cap["case"].get("ter", True)} if cap.get("state_run") else pdb
         if "recs" not in cap:
             ctx.notes.append(f"{pdb} {ff}: run ended before parameter assignment: {cap['err']}")
             continue
+        if cap.get("state_run"):
+            # judge a residue only if its EXPECTED state has an entry for every atom it ended with
+            keep = set()
+            for lname, ids in cap["exp_groups"]:
+                names_ = {i: a for i, l, a, _ in cap["recs"] if i in set(ids)}
+                if all(expected.get((ff, lname, names_[i])) is not None for i in ids):
+                    keep.update(ids)
+                    ctx.count("state-run:residues-judged")
+                else:
+                    ctx.count("state-run:residues-not-fully-parameterised")
+            cap["recs"] = [r for r in cap["recs"] if r[0] in keep]
+            cap["hits"] = [h for h in cap["hits"] if h[0] in keep]
+            cap["lines"] = []  # line positions no longer correspond after filtering
+            if not cap["recs"]:
+                continue
         if (ff, *cap["recs"][0][1:3]) not in expected and ff not in pairs_by_ff:
             continue
         hits = {i: (q, r) for i, q, r in cap["hits"]}
         misses = set(cap["misses"])
         order = [i for i, _, _ in cap["hits"]]
         line_of = {i: cap["lines"][k] for k, i in enumerate(order)} if len(cap["lines"]) == len(order) else {}
-        if cap["err"] is None and len(cap["lines"]) != len(order):
-            ctx.fail({"site": "main.non_trivial/print", "condition": "line-count", "ff": ff}, f"{pdb} {ff}: {len(order)} matched atoms but {len(cap['lines'])} PQR atom lines", {"pdb": pdb, "ff": ff, "extra": extra})
+        if cap["err"] is None and not cap.get("state_run") and len(cap["lines"]) != len(order):
+            ctx.fail({"site": "main.non_trivial/print", "condition": "line-count", "ff": ff}, f"{pdb} {ff}: {len(order)} matched atoms but {len(cap['lines'])} PQR atom lines", {"pdb": pdbref, "ff": ff, "extra": extra})
         seen = set()
         for i, lname, aname, rstr in cap["recs"]:
             key = (ff, lname, aname)
@@ -289,26 +365,26 @@ def run(ctx):
             ctx.evaluated(f"{ff}:{lname}:{aname}", True)
             inhit, inmiss = i in hits, i in misses
             if i in seen or (inhit and inmiss) or not (inhit or inmiss):
-                ctx.fail({"site": "Biomolecule.apply_force_field", "condition": "not-partition", "ff": ff}, f"{pdb} {ff}: atom {rstr} {aname} in hits={inhit} misses={inmiss}", {"pdb": pdb, "ff": ff, "extra": extra, "atom": [rstr, aname]})
+                ctx.fail({"site": "Biomolecule.apply_force_field", "condition": "not-partition", "ff": ff}, f"{pdb} {ff}: atom {rstr} {aname} in hits={inhit} misses={inmiss}", {"pdb": pdbref, "ff": ff, "extra": extra, "atom": [rstr, aname]})
             seen.add(i)
             if exp is None:
                 if inhit:
-                    ctx.fail({"site": "Biomolecule.apply_force_field", "condition": "parameters-without-entry", "ff": ff}, f"{pdb} {ff}: {lname}.{aname} has no force-field entry but was written with {hits[i]}", {"pdb": pdb, "ff": ff, "extra": extra, "atom": [rstr, lname, aname]})
+                    ctx.fail({"site": "Biomolecule.apply_force_field", "condition": "parameters-without-entry", "ff": ff}, f"{pdb} {ff}: {lname}.{aname} has no force-field entry but was written with {hits[i]}", {"pdb": pdbref, "ff": ff, "extra": extra, "atom": [rstr, lname, aname]})
             else:
                 if not inhit:
-                    ctx.fail({"site": "Biomolecule.apply_force_field", "condition": "entry-but-unassigned", "ff": ff}, f"{pdb} {ff}: {lname}.{aname} has an entry but was reported unassigned", {"pdb": pdb, "ff": ff, "extra": extra, "atom": [rstr, lname, aname]})
+                    ctx.fail({"site": "Biomolecule.apply_force_field", "condition": "entry-but-unassigned", "ff": ff}, f"{pdb} {ff}: {lname}.{aname} has an entry but was reported unassigned", {"pdb": pdbref, "ff": ff, "extra": extra, "atom": [rstr, lname, aname]})
                 else:
                     q, r = hits[i]
                     eq = float(Decimal(exp[0]) / Decimal(10) ** SCALE)
                     er = float(Decimal(exp[1]) / Decimal(10) ** SCALE)
                     if q != eq or r != er:
-                        ctx.fail({"site": "Biomolecule.apply_force_field", "condition": "wrong-parameters", "ff": ff}, f"{pdb} {ff}: {lname}.{aname} got ({q}, {r}), force field says ({eq}, {er})", {"pdb": pdb, "ff": ff, "extra": extra, "atom": [rstr, lname, aname], "got": [q, r], "expected": [eq, er]})
+                        ctx.fail({"site": "Biomolecule.apply_force_field", "condition": "wrong-parameters", "ff": ff}, f"{pdb} {ff}: {lname}.{aname} got ({q}, {r}), force field says ({eq}, {er})", {"pdb": pdbref, "ff": ff, "extra": extra, "atom": [rstr, lname, aname], "got": [q, r], "expected": [eq, er]})
                     ln = line_of.get(i)
                     if ln is not None:
                         toks = ln[54:].split()
                         # the sign of a zero ("-0.0000" in the DAT text) is not part of the value
                         if len(toks) < 2 or toks[0].replace("-0.0000", "0.0000") != fmt4(exp[0]) or toks[1].replace("-0.0000", "0.0000") != fmt4(exp[1]):
-                            ctx.fail({"site": "io.print_biomolecule_atoms", "condition": "printed-parameters-differ", "ff": ff}, f"{pdb} {ff}: PQR line for {lname}.{aname} prints {toks[:2]}, expected {fmt4(exp[0])} {fmt4(exp[1])}", {"pdb": pdb, "ff": ff, "extra": extra, "line": ln})
+                            ctx.fail({"site": "io.print_biomolecule_atoms", "condition": "printed-parameters-differ", "ff": ff}, f"{pdb} {ff}: PQR line for {lname}.{aname} prints {toks[:2]}, expected {fmt4(exp[0])} {fmt4(exp[1])}", {"pdb": pdbref, "ff": ff, "extra": extra, "line": ln})
         ctx.count(f"e2e:{ff}:atoms", len(cap["recs"]))
         ctx.count(f"e2e:{ff}:unassigned", len(misses))
     if runs and "recs" in runs[0][3]:
@@ -319,7 +395,7 @@ def run(ctx):
         "float(text) of DAT values (checked to round-trip to the file's decimal text)",
         "modelled, not verified: forcefield.ForcefieldHandler/Forcefield, Biomolecule.apply_force_field",
     ]
-    ctx.assumptions += ["the residue's observed ffname is taken as its final state (its correctness is C02's subject)", f"user-ff cases the generator or loader rejects outright are skipped ({skipped} this run)"]
+    ctx.assumptions += ["on the bundled structures the residue's observed ffname is taken as its final state; on the builder tripeptides (every residue type and named variant at N/internal/C) the expected state name comes from the harness' own table, so a residue looked up under another state's name is reported", f"user-ff cases the generator or loader rejects outright are skipped ({skipped} this run)"]
 
 
 def replay(ctx, data):
@@ -327,6 +403,23 @@ def replay(ctx, data):
     if "dat" in case:
         print("replay: user force field case; re-run ./check C01 with the same seed to reproduce")
         return 1
+    if isinstance(case["pdb"], dict):  # a builder structure: rebuild it, look the atom up again
+        from harness.props import c02 as C2
+
+        text, _ = C2.pdb_text(case["pdb"]["builder_spec"], ter=case["pdb"].get("ter", True))
+        f = ctx.scratch_dir() / "replay.pdb"
+        f.write_text(text)
+        cap = e2e_run(ctx, str(f), case["ff"], case.get("extra", []))
+        got = None
+        if "recs" in cap and case.get("atom"):
+            hits = {i: (q, r) for i, q, r in cap["hits"]}
+            for i, _, aname, rstr in cap["recs"]:
+                if rstr == case["atom"][0] and aname == case["atom"][-1]:
+                    got = hits.get(i)
+        bad = got is not None and case.get("expected") is not None and list(got) != list(case["expected"])
+        print("replay:", case["pdb"]["label"], case["ff"], case.get("extra"), "atom", case.get("atom"), "got", got, "force field says", case.get("expected"), "->", "FAILS" if bad else "passes")
+        ctx.cleanup()
+        return 1 if bad else 0
     cap = e2e_run(ctx, case["pdb"], case["ff"], case.get("extra", []))
     print("replay: re-ran", case["pdb"], case["ff"], "->", cap.get("err") or f"{len(cap.get('lines', []))} lines; compare with", case.get("atom"))
     return 1
